@@ -58,16 +58,9 @@ theorem exec_local : Str.exec.Local where
 
 /-! ## the small executor's glob matcher IS the reference model's (`RedisX.globMatch`) -/
 
-theorem classScanF_eq (c : Nat) (p : List Nat) : classScanF c p = RedisX.classScan c p := by
-  fun_induction RedisX.classScan c p <;> simp_all [classScanF]
+theorem classScanF_eq (c : Nat) (p : List Nat) : classScanF c p = RedisX.classScan c p := rfl
 
-theorem globFuelF_eq (n : Nat) (p s : List Nat) : globFuelF n p s = RedisX.globFuel n p s := by
-  fun_induction RedisX.globFuel n p s
-  case case3 n p s ih2 ih1 =>
-    cases s with
-    | nil => simp [globFuelF, RedisX.globFuel, ih2]
-    | cons c s' => simp [globFuelF, RedisX.globFuel, ih2, ih1 s']
-  all_goals simp_all [globFuelF, classScanF_eq]
+theorem globFuelF_eq (n : Nat) (p s : List Nat) : globFuelF n p s = RedisX.globFuel n p s := rfl
 
 /-- `globB` (evaluated with every recursive call bound once) = `RedisX.globMatch` -/
 theorem globB_eq (p k : List Nat) : globB p k = RedisX.globMatch p k := globFuelF_eq _ p k
